@@ -300,6 +300,11 @@ DOMAttr * DOMElementImpl::setAttributeNode(DOMAttr *newAttr)
     // This will throw INUSE if necessary
     DOMAttr *oldAttr = (DOMAttr *) fAttributes->setNamedItem(newAttr);
 
+    // like removeAttributeNode(): an attribute that is no longer on the
+    // element must not stay in the ID map (it would hide the new one)
+    if (oldAttr && oldAttr != newAttr)
+        ((DOMAttrImpl *)oldAttr)->removeAttrFromIDNodeMap();
+
     return oldAttr;
 }
 
@@ -383,6 +388,10 @@ DOMAttr *DOMElementImpl::setAttributeNodeNS(DOMAttr *newAttr)
 
     // This will throw INUSE if necessary
     DOMAttr *oldAttr = (DOMAttr *) fAttributes->setNamedItemNS(newAttr);
+
+    // (see setAttributeNode)
+    if (oldAttr && oldAttr != newAttr)
+        ((DOMAttrImpl *)oldAttr)->removeAttrFromIDNodeMap();
 
     return oldAttr;
 }
